@@ -417,3 +417,123 @@ package sse
 
 //@ func getResponseWriter
 //@   ensures wraps_a_flusher: result != nil ==> hasdyn(result, "flusherErrorWrapper") || hasdyn(result, "flusherWrapper")
+
+// ---------------------------------------------------------------------------------------------------------
+// message.go: wire encoding (C02, C15). io.Writer is an abstract callee recorded in the ghost call trace.
+// ---------------------------------------------------------------------------------------------------------
+
+//@ func @Write
+//@   params p
+//@   ensures count_in_range: 0 <= result && result <= len(p)
+//@   ensures short_write_has_error: result < len(p) ==> result1 != nil
+
+//@ pure onlywrites(w, a, b) = forall(c, a, b, crecv(c) == w && iscall(c, "Write"))
+//@ pure noerrors(a, b) = forall(c, a, b, cret(c, "Write", 1) == nil)
+
+//@ func chunk.WriteTo
+//@   requires c != nil
+//@   ensures byte_accounting: result == written(old(ncalls()), ncalls())
+//@   ensures writes_only_to_w: onlywrites(w, old(ncalls()), ncalls())
+//@   ensures at_most_three_writes: old(ncalls()) < ncalls() && ncalls() <= old(ncalls()) + 3
+//@   ensures first_write_is_field_name: carg(old(ncalls()), "Write", 0) == ite(c.isComment, ": ", "data: ")
+//@   ensures second_write_is_content: ncalls() > old(ncalls()) + 1 ==> carg(old(ncalls()) + 1, "Write", 0) == c.content
+//@   ensures third_write_is_newline: ncalls() > old(ncalls()) + 2 ==> carg(old(ncalls()) + 2, "Write", 0) == "\n"
+//@   ensures stops_at_first_error: noerrors(old(ncalls()), ncalls()-1)
+//@   ensures error_is_the_last_writes: result1 == cret(ncalls()-1, "Write", 1)
+//@   ensures complete_when_ok: result1 == nil ==> ncalls() == old(ncalls()) + 3
+
+//@ func Message.writeMessageField
+//@   ensures unset_writes_nothing: !f.set ==> ncalls() == old(ncalls()) && result == 0 && result1 == nil
+//@   ensures byte_accounting: result == written(old(ncalls()), ncalls())
+//@   ensures writes_only_to_w: onlywrites(w, old(ncalls()), ncalls())
+//@   ensures at_most_three_writes: f.set ==> old(ncalls()) < ncalls() && ncalls() <= old(ncalls()) + 3
+//@   ensures first_write_is_field_name: f.set ==> carg(old(ncalls()), "Write", 0) == fieldBytes
+//@   ensures second_write_is_value: ncalls() > old(ncalls()) + 1 ==> carg(old(ncalls()) + 1, "Write", 0) == f.value
+//@   ensures third_write_is_newline: ncalls() > old(ncalls()) + 2 ==> carg(old(ncalls()) + 2, "Write", 0) == "\n"
+//@   ensures stops_at_first_error: noerrors(old(ncalls()), ncalls()-1)
+//@   ensures error_is_the_last_writes: f.set ==> result1 == cret(ncalls()-1, "Write", 1)
+//@   ensures complete_when_ok: f.set && result1 == nil ==> ncalls() == old(ncalls()) + 3
+
+//@ pure pow10(i) = ite(i <= 0, 1, ite(i == 1, 10, ite(i == 2, 100, ite(i == 3, 1000, ite(i == 4, 10000, ite(i == 5, 100000, ite(i == 6, 1000000,
+//@     ite(i == 7, 10000000, ite(i == 8, 100000000, ite(i == 9, 1000000000, ite(i == 10, 10000000000, ite(i == 11, 100000000000, ite(i == 12, 1000000000000, 10000000000000)))))))))))))
+//@ pure alldigits(s) = forall(j, 0, len(s), 48 <= s[j] && s[j] <= 57)
+//@ pure retrymillis(e) = ite(e.Retry >= 0, e.Retry / 1000000, 0 - ((0 - e.Retry) / 1000000))
+
+//@ func Message.writeRetry
+//@   requires e != nil
+//@   ensures short_retry_writes_nothing: retrymillis(e) <= 0 ==> ncalls() == old(ncalls()) && result == 0 && result1 == nil
+//@   ensures byte_accounting: result == written(old(ncalls()), ncalls())
+//@   ensures writes_only_to_w: onlywrites(w, old(ncalls()), ncalls())
+//@   ensures at_most_three_writes: retrymillis(e) > 0 ==> old(ncalls()) < ncalls() && ncalls() <= old(ncalls()) + 3
+//@   ensures first_write_is_field_name: retrymillis(e) > 0 ==> carg(old(ncalls()), "Write", 0) == "retry: "
+//@   ensures second_write_is_digits: ncalls() > old(ncalls()) + 1 ==> alldigits(carg(old(ncalls()) + 1, "Write", 0)) && len(carg(old(ncalls()) + 1, "Write", 0)) >= 1 && len(carg(old(ncalls()) + 1, "Write", 0)) <= 13
+//@   ensures no_leading_zero: ncalls() > old(ncalls()) + 1 ==> carg(old(ncalls()) + 1, "Write", 0)[0] != 48
+//@   ensures third_write_is_newline: ncalls() > old(ncalls()) + 2 ==> carg(old(ncalls()) + 2, "Write", 0) == "\n"
+//@   ensures stops_at_first_error: noerrors(old(ncalls()), ncalls()-1)
+//@   ensures error_is_the_last_writes: retrymillis(e) > 0 ==> result1 == cret(ncalls()-1, "Write", 1)
+//@   ensures complete_when_ok: retrymillis(e) > 0 && result1 == nil ==> ncalls() == old(ncalls()) + 3
+//@   invariant 0 index_range: -1 <= i && i <= 12 && millis >= 0 && millis < pow10(i+1)
+//@   invariant 0 digits_so_far: forall(j, i+1, 13, 48 <= buf[j] && buf[j] <= 57)
+//@   invariant 0 leading_digit: i < 12 ==> (millis == 0 ==> buf[i+1] != 48)
+//@   invariant 0 something_written: millis == 0 ==> i < 12
+//@   invariant 0 trace_frozen: ncalls() == old(ncalls()) + 1
+
+//@ pure idn(e) = ite(e.ID.set, 3, 0)
+//@ pure tyn(e) = ite(e.Type.set, 3, 0)
+//@ pure rtn(e) = ite(retrymillis(e) > 0, 3, 0)
+//@ pure hdr(e) = idn(e) + tyn(e) + rtn(e)
+//@ pure total(e) = hdr(e) + 3*len(e.chunks)
+//@ pure warg(k) = carg(k, "Write", 0)
+
+//@ func Message.WriteTo
+//@   requires e != nil
+//@   ensures byte_accounting: result == written(old(ncalls()), ncalls())
+//@   ensures writes_only_to_w: onlywrites(w, old(ncalls()), ncalls())
+//@   ensures stops_at_first_error: noerrors(old(ncalls()), ncalls()-1)
+//@   ensures error_is_the_last_writes: ncalls() > old(ncalls()) ==> result1 == cret(ncalls()-1, "Write", 1)
+//@   ensures nothing_to_write: total(e) == 0 ==> ncalls() == old(ncalls()) && result == 0 && result1 == nil
+//@   ensures never_more_than_the_encoding: ncalls() <= old(ncalls()) + total(e) + 1
+//@   ensures complete_when_ok: result1 == nil && total(e) > 0 ==> ncalls() == old(ncalls()) + total(e) + 1
+//@   ensures id_line: e.ID.set ==> let(b, old(ncalls()), (b < ncalls() ==> warg(b) == "id: ") && (b+1 < ncalls() ==> warg(b+1) == e.ID.value) && (b+2 < ncalls() ==> warg(b+2) == "\n"))
+//@   ensures type_line: e.Type.set ==> let(b, old(ncalls()) + idn(e), (b < ncalls() ==> warg(b) == "event: ") && (b+1 < ncalls() ==> warg(b+1) == e.Type.value) && (b+2 < ncalls() ==> warg(b+2) == "\n"))
+//@   ensures retry_line: retrymillis(e) > 0 ==> let(b, old(ncalls()) + idn(e) + tyn(e), (b < ncalls() ==> warg(b) == "retry: ") && (b+1 < ncalls() ==> alldigits(warg(b+1)) && len(warg(b+1)) >= 1) && (b+2 < ncalls() ==> warg(b+2) == "\n"))
+//@   ensures chunk_lines: let(b, old(ncalls()) + hdr(e), forall(i, 0, len(e.chunks),
+//@       (b+3*i < ncalls() ==> warg(b+3*i) == ite(e.chunks[i].isComment, ": ", "data: ")) &&
+//@       (b+3*i+1 < ncalls() ==> warg(b+3*i+1) == e.chunks[i].content) &&
+//@       (b+3*i+2 < ncalls() ==> warg(b+3*i+2) == "\n")))
+//@   ensures final_blank_line: let(b, old(ncalls()) + total(e), b < ncalls() ==> warg(b) == "\n")
+//@   invariant 0 progress: err == nil && ncalls() == old(ncalls()) + hdr(e) + 3*ri0 && n == written(old(ncalls()), ncalls())
+//@   invariant 0 clean_so_far: noerrors(old(ncalls()), ncalls()) && onlywrites(w, old(ncalls()), ncalls())
+//@   invariant 0 id_line: e.ID.set ==> let(b, old(ncalls()), warg(b) == "id: " && warg(b+1) == e.ID.value && warg(b+2) == "\n")
+//@   invariant 0 type_line: e.Type.set ==> let(b, old(ncalls()) + idn(e), warg(b) == "event: " && warg(b+1) == e.Type.value && warg(b+2) == "\n")
+//@   invariant 0 retry_line: retrymillis(e) > 0 ==> let(b, old(ncalls()) + idn(e) + tyn(e), warg(b) == "retry: " && alldigits(warg(b+1)) && len(warg(b+1)) >= 1 && warg(b+2) == "\n")
+//@   invariant 0 chunk_lines: let(b, old(ncalls()) + hdr(e), forall(i, 0, ri0, warg(b+3*i) == ite(e.chunks[i].isComment, ": ", "data: ") && warg(b+3*i+1) == e.chunks[i].content && warg(b+3*i+2) == "\n"))
+//@   invariant 0 bytes_iff_writes: iff(n == 0, ncalls() == old(ncalls()))
+
+//@ func Message.appendText
+//@   requires e != nil
+//@   modifies e.chunks
+//@   ensures earlier_chunks_untouched: len(e.chunks) >= old(len(e.chunks)) && forall(k, 0, old(len(e.chunks)), e.chunks[k] == old(e.chunks[k]))
+//@   ensures appended_chunks_single_line: forall(k, old(len(e.chunks)), len(e.chunks), singleLine(e.chunks[k].content))
+//@   ensures appended_chunks_flagged: forall(k, old(len(e.chunks)), len(e.chunks), e.chunks[k].isComment == isComment)
+//@   ensures nothing_for_empty_input: (forall(j, 0, len(chunks), chunks[j] == "")) ==> len(e.chunks) == old(len(e.chunks))
+//@   invariant 0 outer_earlier_untouched: len(e.chunks) >= old(len(e.chunks)) && forall(k, 0, old(len(e.chunks)), e.chunks[k] == old(e.chunks[k]))
+//@   invariant 0 outer_single_line: forall(k, old(len(e.chunks)), len(e.chunks), singleLine(e.chunks[k].content) && e.chunks[k].isComment == isComment)
+//@   invariant 0 outer_empty_so_far: (forall(j, 0, ri0, chunks[j] == "")) ==> len(e.chunks) == old(len(e.chunks))
+//@   invariant 1 inner_earlier_untouched: len(e.chunks) >= old(len(e.chunks)) && forall(k, 0, old(len(e.chunks)), e.chunks[k] == old(e.chunks[k]))
+//@   invariant 1 inner_single_line: forall(k, old(len(e.chunks)), len(e.chunks), singleLine(e.chunks[k].content) && e.chunks[k].isComment == isComment)
+//@   invariant 1 rest_is_suffix_of_argument: suffixof(c, chunks[ri0])
+//@   invariant 1 rest_starts_a_line: len(c) < len(chunks[ri0]) && c != "" ==> isNL(chunks[ri0][len(chunks[ri0]) - len(c) - 1])
+//@   invariant 1 inner_empty_so_far: (forall(j, 0, ri0, chunks[j] == "")) && c == chunks[ri0] ==> len(e.chunks) == old(len(e.chunks))
+
+//@ func Message.AppendData
+//@   requires e != nil
+//@   modifies e.chunks
+//@   ensures earlier_chunks_untouched: len(e.chunks) >= old(len(e.chunks)) && forall(k, 0, old(len(e.chunks)), e.chunks[k] == old(e.chunks[k]))
+//@   ensures appended_data_single_line: forall(k, old(len(e.chunks)), len(e.chunks), singleLine(e.chunks[k].content) && !e.chunks[k].isComment)
+
+//@ func Message.AppendComment
+//@   requires e != nil
+//@   modifies e.chunks
+//@   ensures earlier_chunks_untouched: len(e.chunks) >= old(len(e.chunks)) && forall(k, 0, old(len(e.chunks)), e.chunks[k] == old(e.chunks[k]))
+//@   ensures appended_comments_single_line: forall(k, old(len(e.chunks)), len(e.chunks), singleLine(e.chunks[k].content) && e.chunks[k].isComment)
